@@ -49,25 +49,28 @@ if [ "$MODE" = replay ]; then
 fi
 
 case "$MODE" in
-  quick) PROCS=16; PER=2; ROUNDS=1;;      # 32 indices x (1 general + 2 high-contention) = 96 scenario runs
+  quick) PROCS=16; PER=1; ROUNDS=2;;      # 32 jobs x (1 general + 2 high-contention) = 96 scenario runs
   thorough) PROCS=16; PER=6; ROUNDS=10;;  # 960 indices = 2880 scenario runs
   *) echo "usage: miri/run.sh build|quick|thorough|replay <file>"; exit 2;;
 esac
 T0=$(date +%s)
 RATES=(0.01 0.05 0.1 0.2 0.3 0.5)
 rm -f "$OUT"/miri/run-*.log
-N=0
-for R in $(seq 0 $((ROUNDS-1))); do
-  for K in $(seq 0 $((PROCS-1))); do
-    J=$((R*PROCS+K))
-    FROM=$((J*PER)); TO=$((FROM+PER))
-    PR=${RATES[$((J % ${#RATES[@]}))]}
-    MS=$((SEED % 100000 + J))
-    ( miri "$MS" "$PR" miri-run "$SEED" "$FROM" "$TO" >"$OUT/miri/run-$J.log" 2>&1; echo "EXIT $? miri_seed=$MS rate=$PR from=$FROM to=$TO" >>"$OUT/miri/run-$J.log" ) &
-    N=$((N+1))
-  done
-  wait
+# one job per (scenario range, Miri seed, preemption rate); at most $PROCS Miri processes at any time
+JOBS="$OUT/miri/jobs.txt"; : > "$JOBS"
+for J in $(seq 0 $((ROUNDS*PROCS-1))); do
+  FROM=$((J*PER)); TO=$((FROM+PER))
+  PR=${RATES[$((J % ${#RATES[@]}))]}
+  MS=$((SEED % 100000 + J))
+  echo "$J $FROM $TO $PR $MS" >> "$JOBS"
 done
+export OUT SEED
+xargs -P "$PROCS" -L 1 bash -c '
+  J=$0; FROM=$1; TO=$2; PR=$3; MS=$4
+  MIRIFLAGS="-Zmiri-disable-isolation -Zmiri-seed=$MS -Zmiri-preemption-rate=$PR" \
+    cargo +nightly miri run --offline -q -- miri-run "$SEED" "$FROM" "$TO" >"$OUT/miri/run-$J.log" 2>&1
+  echo "EXIT $? miri_seed=$MS rate=$PR from=$FROM to=$TO" >>"$OUT/miri/run-$J.log"
+' < "$JOBS"
 T1=$(date +%s)
 
 # collect
